@@ -54,6 +54,21 @@ def evaluate(e: ast.AST, env: Dict[str, Any]) -> Any:
             if isinstance(e.op, ast.Or) and last:
                 return last
         return last
+    if isinstance(e, ast.BinOp) and isinstance(e.op, ast.Add):
+        a, b = evaluate(e.left, env), evaluate(e.right, env)
+        if isinstance(a, (str, int)) and type(a) is type(b):
+            return a + b
+        raise Unknown(f"`+` on {type(a).__name__} / {type(b).__name__}")
+    if isinstance(e, ast.JoinedStr):
+        out = ""
+        for v in e.values:
+            if isinstance(v, ast.Constant):
+                out += str(v.value)
+            elif isinstance(v, ast.FormattedValue) and v.conversion == -1 and v.format_spec is None:
+                out += str(evaluate(v.value, env))
+            else:
+                raise Unknown("formatted value with conversion")
+        return out
     if isinstance(e, ast.IfExp):
         return evaluate(e.body, env) if evaluate(e.test, env) else evaluate(e.orelse, env)
     if isinstance(e, ast.Compare):
